@@ -156,7 +156,8 @@ class Template:
         self.name = name
         self.src = list(srclines)
         self.lines = [classify(s) for s in self.src]
-        self.text = '\n'.join(self.src)
+        # a name ending in !crlf: the program is passed as text with Windows line ends
+        self.text = '\r\n'.join(self.src) + '\r\n' if name.endswith('!crlf') else '\n'.join(self.src)
         self.gaps = sorted({l['marker'] for l in self.lines if l['kind'] == 'gap'})
         self.consts = sorted(set(re.findall(r'\b(K\d+|BASE|WIDE)\b', self.text)) - set(re.findall(r'^(K\d+) =', self.text, re.M)))
         self.files = {'/w/%s.bin' % g: ('gap', g) for g in self.gaps}
